@@ -232,6 +232,17 @@ fn random_grammar(rng: &mut Rng, name: &str) -> (String, Vec<&'static str>) {
             feats.push("alias-merged-node-type");
         }
     }
+    // a field on a hidden rule whose ONLY child is another hidden rule with repeated children:
+    // the field's quantity has to travel through two hidden levels without any sibling token
+    if rng.chance(1, 3) {
+        feats.push("nested-hidden");
+        let inner = if rng.chance(1, 2) { e() } else { sym("number") };
+        rules.push(("_tup_items".into(), seq(vec![inner.clone(), rep(seq(vec![lit(","), inner]))])));
+        rules.push(("_tup_wrap".into(), choice(vec![sym("_tup_items"), lit("nil")])));
+        let body = if rng.chance(2, 3) { field("items", sym("_tup_wrap")) } else { sym("_tup_wrap") };
+        rules.push(("tup_stmt".into(), seq(vec![lit("tup"), body, lit(";")])));
+        items.push(sym("tup_stmt"));
+    }
     // alias nesting through inlining: an INLINED rule used under an alias, whose body contains symbols
     // that carry their own alias (rule or token) and plain ones of a different shape; the inner-aliased
     // rule is also used un-aliased elsewhere, so its alias does not become a default alias
